@@ -14,13 +14,15 @@ MODEL_FILES = ['theories/Model/RdBounds.v']
 GEN_GROUPS = ['rdbounds']
 RULE = ('all 2x2 tables with every cell >= 1 and n <= N (N = 9 quick / 12 thorough), every completion of the '
         'unobserved potential outcomes enumerated in Coq for n <= 8; plus random larger frames with rows missing '
-        'exposure/outcome, reference level 0 or 1, shuffled and re-indexed; non-trivial = distinct (a,b,c,d,missing pattern, reference)')
+        'exposure/outcome, reference level 0 or 1, shuffled and re-indexed, every frame carrying a bystander column with its own NaNs; non-trivial = distinct (a,b,c,d,missing pattern, reference)')
 TRUSTED = ['pandas boolean masks / dropna used by RiskDifference.fit (modelled by Model.RdBounds.of_rows)']
 
 
 def make_frame(rows, rng, index_kind):
     df = pd.DataFrame({'e': [np.nan if r[0] is None else float(r[0]) for r in rows],
                        'y': [np.nan if r[1] is None else float(r[1]) for r in rows]})
+    # a bystander column the analysis does not name, with missing values of its own (most real frames have some)
+    df['cd4'] = [np.nan if (i * 7 + len(rows)) % 3 == 0 else 100.0 + i for i in range(len(rows))]
     if index_kind == 'shift':
         df.index = df.index + 100
     elif index_kind == 'str':
